@@ -17,6 +17,7 @@ import (
 
 type IG struct {
 	Fn    *ssa.Function
+	Fns   []*ssa.Function // Fn plus the single-call helpers inlined into the graph (igx)
 	Nodes []ssa.Instruction
 	Idx   map[ssa.Instruction]int
 	Succ  [][]int
@@ -31,7 +32,7 @@ func (p *Program) ig(fn *ssa.Function) *IG {
 	if g, ok := p.igCache[fn]; ok {
 		return g
 	}
-	g := &IG{Fn: fn, Idx: map[ssa.Instruction]int{}}
+	g := &IG{Fn: fn, Fns: []*ssa.Function{fn}, Idx: map[ssa.Instruction]int{}}
 	first := map[*ssa.BasicBlock]int{}
 	for _, b := range fn.Blocks {
 		first[b] = len(g.Nodes)
@@ -637,7 +638,7 @@ func ifsOf(fn *ssa.Function) []*ssa.If {
 // edgesWhere returns the branch edges of fn on which pred(fact) holds.
 func (g *IG) edgesWhere(pred func(cmpFact) bool) map[edge]bool {
 	out := map[edge]bool{}
-	for _, ifi := range ifsOf(g.Fn) {
+	for _, ifi := range g.ifs() {
 		for _, outcome := range []bool{true, false} {
 			f, ok := condFact(ifi.Cond, outcome)
 			if ok && pred(f) {
@@ -820,4 +821,225 @@ func resolveFreeVar(fn *ssa.Function, v ssa.Value) ssa.Value {
 		}
 	}
 	return nil
+}
+
+// ifs lists the If instructions of every function of the graph.
+func (g *IG) ifs() []*ssa.If {
+	var out []*ssa.If
+	for _, f := range g.Fns {
+		out = append(out, ifsOf(f)...)
+	}
+	return out
+}
+
+var igxCache = map[*Program]map[*ssa.Function]*IG{}
+
+// igx builds the flow graph of fn with its *single-call helpers* inlined (same package, called synchronously from exactly one
+// site of the inlined set, depth <= 2). A helper extracted from a role function ("finish()", "hasWork()") then stays part
+// of the paths the rules quantify over. A helper returning boolean constants is threaded into the caller's branch on its
+// result, so the facts established inside it remain attached to the right successor.
+func (p *Program) igx(fn *ssa.Function) *IG {
+	if igxCache[p] == nil {
+		igxCache[p] = map[*ssa.Function]*IG{}
+	}
+	if g, ok := igxCache[p][fn]; ok {
+		return g
+	}
+	set := []*ssa.Function{fn}
+	inSet := map[*ssa.Function]bool{fn: true}
+	callSite := map[*ssa.Function]*ssa.Call{}
+	depthOf := map[*ssa.Function]int{fn: 0}
+	for qi := 0; qi < len(set); qi++ {
+		f := set[qi]
+		if depthOf[f] >= 2 {
+			continue
+		}
+		counts := map[*ssa.Function][]*ssa.Call{}
+		for _, b := range f.Blocks {
+			for _, in := range b.Instrs {
+				c, ok := in.(*ssa.Call)
+				if !ok {
+					continue
+				}
+				y := c.Call.StaticCallee()
+				if mc, isMC := c.Call.Value.(*ssa.MakeClosure); isMC {
+					y, _ = mc.Fn.(*ssa.Function)
+				}
+				if y == nil || len(y.Blocks) == 0 || !p.inModule(y) || fnPkg(y) != fnPkg(fn) {
+					continue
+				}
+				counts[y] = append(counts[y], c)
+			}
+		}
+		for y, cs := range counts {
+			if len(cs) != 1 || inSet[y] {
+				continue
+			}
+			// not called from another member of the set either
+			inSet[y] = true
+			callSite[y] = cs[0]
+			depthOf[y] = depthOf[f] + 1
+			set = append(set, y)
+		}
+	}
+	// a helper that is ALSO called by another member (found later) would create spurious paths: drop it
+	for _, f := range set {
+		for _, b := range f.Blocks {
+			for _, in := range b.Instrs {
+				if c, ok := in.(*ssa.Call); ok {
+					if y := c.Call.StaticCallee(); y != nil && inSet[y] && y != fn && callSite[y] != c {
+						inSet[y] = false
+					}
+				}
+			}
+		}
+	}
+	var fns []*ssa.Function
+	for _, f := range set {
+		if inSet[f] {
+			fns = append(fns, f)
+		}
+	}
+	// determinism: keep discovery order (root first)
+	g := &IG{Fn: fn, Fns: fns, Idx: map[ssa.Instruction]int{}}
+	first := map[*ssa.BasicBlock]int{}
+	for _, f := range fns {
+		for _, b := range f.Blocks {
+			first[b] = len(g.Nodes)
+			for _, in := range b.Instrs {
+				g.Idx[in] = len(g.Nodes)
+				g.Nodes = append(g.Nodes, in)
+			}
+		}
+	}
+	g.Succ = make([][]int, len(g.Nodes))
+	g.Pred = make([][]int, len(g.Nodes))
+	inlinedAt := map[*ssa.Call]*ssa.Function{}
+	for y, c := range callSite {
+		if inSet[y] {
+			inlinedAt[c] = y
+		}
+	}
+	for _, f := range fns {
+		for _, b := range f.Blocks {
+			base := first[b]
+			for i, in := range b.Instrs {
+				n := base + i
+				if c, ok := in.(*ssa.Call); ok && inlinedAt[c] != nil {
+					y := inlinedAt[c]
+					g.Succ[n] = append(g.Succ[n], first[y.Blocks[0]])
+					// returns of y continue after the call; boolean-constant returns are threaded into the caller's branch on the result
+					var ifi *ssa.If
+					pure := true
+					for _, later := range b.Instrs[i+1:] {
+						switch x := later.(type) {
+						case *ssa.If:
+							if fc, okf := condFact(x.Cond, true); okf && fc.Bool && fc.X == ssa.Value(c) {
+								ifi = x
+							}
+						case *ssa.UnOp, *ssa.BinOp, *ssa.Phi, *ssa.DebugRef:
+						default:
+							pure = false
+						}
+						if ifi != nil || !pure {
+							break
+						}
+					}
+					for _, yb := range y.Blocks {
+						ret, isRet := yb.Instrs[len(yb.Instrs)-1].(*ssa.Return)
+						if !isRet {
+							continue
+						}
+						rn := g.Idx[ret]
+						threaded := false
+						if ifi != nil && pure && len(ret.Results) == 1 {
+							if bv, isC := constBool(retOperand(ret, 0)); isC {
+								fc, _ := condFact(ifi.Cond, true)
+								takeTrue := (fc.Op == token.NEQ) == bv
+								k := 1
+								if takeTrue {
+									k = 0
+								}
+								g.Succ[rn] = append(g.Succ[rn], first[threadJump(b, b.Succs[k])])
+								threaded = true
+							}
+						}
+						if !threaded {
+							g.Succ[rn] = append(g.Succ[rn], n+1)
+						}
+					}
+					continue
+				}
+				if i+1 < len(b.Instrs) {
+					g.Succ[n] = append(g.Succ[n], n+1)
+					continue
+				}
+				for _, sb := range b.Succs {
+					g.Succ[n] = append(g.Succ[n], first[threadJump(b, sb)])
+				}
+				switch in.(type) {
+				case *ssa.Return:
+					if f == fn {
+						g.Exits = append(g.Exits, n)
+					}
+				case *ssa.Panic:
+					g.Panic = append(g.Panic, n)
+				}
+			}
+		}
+	}
+	for n, ss := range g.Succ {
+		for _, t := range ss {
+			g.Pred[t] = append(g.Pred[t], n)
+		}
+	}
+	igxCache[p][fn] = g
+	return g
+}
+
+// owns: fn is the graph's root or one of its inlined helpers that no function outside the graph calls.
+func (g *IG) owns(p *Program, fn *ssa.Function) bool {
+	if o := fn.Origin(); o != nil {
+		fn = o
+	}
+	in := map[*ssa.Function]bool{}
+	for _, f := range g.Fns {
+		if o := f.Origin(); o != nil {
+			f = o
+		}
+		in[f] = true
+	}
+	if !in[fn] {
+		return false
+	}
+	if fn == g.Fn || fn == g.Fn.Origin() {
+		return true
+	}
+	for f := range p.All {
+		fo := f
+		if o := f.Origin(); o != nil {
+			fo = o
+		}
+		if in[fo] {
+			continue
+		}
+		for _, b := range f.Blocks {
+			for _, ins := range b.Instrs {
+				for _, op := range ins.Operands(nil) {
+					if op == nil || *op == nil {
+						continue
+					}
+					if y, ok := (*op).(*ssa.Function); ok {
+						if o := y.Origin(); o != nil {
+							y = o
+						}
+						if y == fn {
+							return false
+						}
+					}
+				}
+			}
+		}
+	}
+	return true
 }
